@@ -257,7 +257,17 @@ def gen(seed, V, tier, index, bias=None):
         elif fam["lookup"] and r < 0.40:
             evs.append([n, valid_lookup(rng, V, t, iso_ok)])
         elif fam["badkey"] and r < 0.55:
-            evs.append([n, bad_lookup(rng, V, t, iso_ok)])
+            if rng.random() < 0.25:
+                # a non-integral / string neighbour of a charge whose ion has just been created
+                a = V.atom(rng, "ion" if not iso_ok or rng.random() < 0.6 else "isoion")
+                if a[1]:
+                    evs.append([n, ["lookup", t, "isoion", [a[0], a[1], a[2]], [a[0], a[1], a[2]]]])
+                    evs.append([n, ["badkey", t, "isoion", [a[0], a[1], rng.choice([a[2] + 0.5, str(a[2]), a[2] - 0.25])]]])
+                else:
+                    evs.append([n, ["lookup", t, "ion", [a[0], a[2]], [a[0], 0, a[2]]]])
+                    evs.append([n, ["badkey", t, "ion", [a[0], rng.choice([a[2] + 0.5, str(a[2]), a[2] - 0.25])]]])
+            else:
+                evs.append([n, bad_lookup(rng, V, t, iso_ok)])
         elif fam["roundtrip"] and r < 0.65:
             evs.append([n, ["roundtrip", t, pick_atom(n, t), rng.choice(["copy", "deepcopy"] + ["pickle:%d" % p for p in PROTOS])]])
         elif fam["container"] and r < 0.70:
